@@ -153,6 +153,19 @@ def apiRows : List Row := [
     res := [("tensor", .fresh), ("vectorized", .fresh)], inStatement := false },
   { cls := "BasePolicy", call := "obs_to_tensor", variant := "dict", args := [("observation", .readOnly)],
     res := [("tensor", .fresh), ("vectorized", .fresh)], inStatement := false },
+  -- the algorithms AS CALLERS of their VecEnv (roles inverted: "arguments" are the objects the outermost wrapper and
+  -- VecNormalize's helpers returned to the algorithm). Claimed and measured: the algorithm keeps the latest
+  -- observation objects (`_last_obs`, `_last_original_obs`, `_last_episode_starts`) and reads them at the next step,
+  -- and never writes into anything it was handed — except on-policy timeout bootstrapping, which adds
+  -- gamma*V(terminal) to the returned rewards array in place (rewards are outside the sentence of C19)
+  { cls := "OffPolicyAlgorithm", call := "learn",
+    args := [("obs", .storedByRef), ("rewards", .readOnly), ("dones", .readOnly), ("infos", .readOnly),
+             ("original_obs", .storedByRef), ("original_reward", .readOnly), ("normalized_obs", .storedByRef)],
+    res := [], inStatement := false },
+  { cls := "OnPolicyAlgorithm", call := "learn",
+    args := [("obs", .storedByRef), ("rewards", .mutated), ("dones", .storedByRef), ("infos", .readOnly),
+             ("original_obs", .storedByRef), ("original_reward", .readOnly), ("normalized_obs", .storedByRef)],
+    res := [], inStatement := false },
   -- image observations are not copied: the tensor is a view of the caller's array (th.as_tensor of a transposed view)
   { cls := "BasePolicy", call := "obs_to_tensor", variant := "image", args := [("observation", .readOnly)],
     res := [("tensor", .sharesArg 0), ("vectorized", .fresh)], inStatement := false }
